@@ -611,7 +611,7 @@ def gauss(ck):
         rep = {"prec_type": ptype, "k": k, "dim": dim, "x": x.tolist(), "like": like.tolist()}
         # executed through mstep_diag_x (fractions reduced after every accumulation step); float-valued
         # likelihoods with exponents spread over 2^-190..1 still give 1000-bit fractions: quick tier keeps the small ones
-        if ptype == "diag" and (style != "model" or ck.thorough() or n * k * dim <= 40):
+        if ptype == "diag" and (style != "model" or n * k * dim <= (80 if ck.thorough() else 40)):
             pm, ps, pw, dof0, small = pri
             terms.append("let '(w, m, p) := mstep_diag_x %s %s %s %s %s %s %s %s %s %s in "
                          "qlist_close %s w %s && list_eqb (qlist_close %s) m %s && list_eqb (qlist_rel %s) p %s" % (
